@@ -75,7 +75,8 @@ NextBytes ==
          [] s.ph = "hdrtype" -> IF Rich THEN ValueMarkers \cup {88} ELSE {mi, mArrS}
          [] OTHER -> IF inrich THEN {mHash, mi} ELSE {mHash}
 
-Terminal == s.st # "run" \/ (UbBetween(s) /\ s.done >= 1) \/ Len(doc) >= MaxLen
+Terminal == IF Mode = "any" THEN Len(doc) >= MaxLen ELSE
+  s.st # "run" \/ (UbBetween(s) /\ s.done >= 1) \/ Len(doc) >= MaxLen
 
 IsRichByte(b) ==
   \/ s.ph = "value" /\ b \in (ScalarMarkers \cup BadMarkers \cup {mN}) \ PoorMarkers
@@ -103,7 +104,7 @@ Next ==
 Spec == Init /\ [][Next]_vars
 
 Report ==
-  Terminal /\ (UbClass(s) # "incomplete" \/ EmitIncomplete) =>
+  (IF Mode = "any" THEN doc # <<>> ELSE Terminal) /\ (UbClass(s) # "incomplete" \/ EmitIncomplete) =>
     PrintT(ToJson([doc |-> doc, class |-> UbClass(s), why |-> s.why]))
 
 \* ---- properties of the reference automaton itself -------------------------
